@@ -11,13 +11,13 @@ MUTANTS = [
     {"name": "revert-b6a5e26-and-collect", "revert": "b6a5e26", "props": ["C01"]},
     {"name": "revert-10a47c7-nan-bounds", "revert": "10a47c7", "props": ["C02", "C01"]},
     {"name": "revert-fb0dac0-and-raw-exc", "revert": "fb0dac0", "props": ["C04"]},
-    {"name": "revert-aa785cb-lax-bound-type", "revert": "aa785cb", "props": ["C01"]},
+    {"name": "revert-aa785cb-lax-bound-type", "props": ["C01"], "edits": [{"file": R, "old": "            return type(value)(bound)\n        return bound", "new": "            return bound\n        return bound"}]},
     {"name": "revert-b8f56f5-registry-stale-cache", "props": ["C16"], "edits": [{"file": "utype/utils/base.py", "old": "            self._cache.clear()\n", "new": ""}]},
     {"name": "revert-28f56ca-registry-priority0-order", "revert": "28f56ca", "props": ["C16"]},
     {"name": "revert-b9950c3-xor-threads-value", "revert": "b9950c3", "props": ["C09"]},
     {"name": "revert-b467353-enum-unhashable", "revert": "b467353", "props": ["C12"]},
     {"name": "revert-981e4a4-depth-falsy-route", "revert": "981e4a4", "props": ["C18"]},
-    {"name": "revert-4a77e64-fieldfirst-case-variants", "revert": "4a77e64", "props": ["C06"]},
+    {"name": "revert-4a77e64-fieldfirst-case-variants", "props": ["C06"], "edits": [{"file": "utype/parser/base.py", "old": "                        if not context.options.ignore_alias_conflicts:\n                            # two case variants of one name with different values: a conflict,", "new": "                        if False:\n                            # two case variants of one name with different values: a conflict,"}]},
     {"name": "revert-f57c67c-ignore_required-defaults", "revert": "f57c67c", "props": ["C06"]},
     {"name": "c06-datafirst-compares-parsed-with-raw", "props": ["C06"], "edits": [{"file": "utype/parser/base.py", "old": "                    if provided[name] != value:", "new": "                    if result.get(name, value) != value:"}]},
     {"name": "revert-3f17af4-datafirst-spurious-absence", "props": ["C10"], "edits": [{"file": "utype/parser/base.py", "old": "            if name in result or name in attempted:", "new": "            if name in result:"}]},
@@ -63,11 +63,11 @@ MUTANTS = [
     {"name": "c20-lock-released-before-fields-resolved", "props": ["C20"], "edits": [{"file": "utype/parser/base.py", "old": "        with self._forward_lock:\n            if not self.forward_refs:\n                return False\n            return self._resolve_forward_refs(local_vars=local_vars, ignore_errors=ignore_errors)", "new": "        with self._forward_lock:\n            if not self.forward_refs:\n                return False\n        return self._resolve_forward_refs(local_vars=local_vars, ignore_errors=ignore_errors)"}]},
     {"name": "revert-a0fd8f0-lax-fractional-bound-int", "revert": "a0fd8f0", "props": ["C03"]},
     {"name": "revert-26d5b4e-abstract-container-elements", "revert": "26d5b4e", "props": ["C01"]},
-    {"name": "revert-a63d0d7-strict-recheck-after-lax", "revert": "a63d0d7", "props": ["C01", "C03"]},
+    {"name": "revert-a63d0d7-strict-recheck-after-lax", "props": ["C01", "C03"], "edits": [{"file": R, "old": "                if result is not value:\n                    # the constraint transformed the value", "new": "                if False:\n                    # the constraint transformed the value"}]},
     {"name": "revert-55b7cc4-shared-typing-forwardref", "revert": "55b7cc4", "props": ["C17", "C19"]},
     {"name": "revert-6f3d216-not-taken-values", "revert": "6f3d216", "props": ["C06"]},
     {"name": "revert-6a12ebb-lax-max_digits-carry", "revert": "6a12ebb", "props": ["C03"]},
-    {"name": "revert-2b13b3c-lax-multiple_of-float-drift", "revert": "2b13b3c", "props": ["C03"]},
+    {"name": "revert-2b13b3c-lax-multiple_of-float-drift", "props": ["C03"], "edits": [{"file": R, "old": "            if isinstance(value, float):\n                # binary floats drift", "new": "            if False:\n                # binary floats drift"}]},
     {"name": "revert-2c2374b-safe-repr-of-items", "revert": "2c2374b", "props": ["C04"]},
     {"name": "revert-41cd943-unhashable-discriminator", "revert": "41cd943", "props": ["C04"]},
     {"name": "revert-271e688-recheck-after-decimal_places", "revert": "271e688", "props": ["C01"]},
